@@ -175,8 +175,8 @@ def run(ctx):
                 "public field; each call is repeated on a fresh twin with the same field values on the same bytes, all recipes are deep-snapshotted before "
                 "and after, and each result is validated against the CURRENT fields; a result that is wrong in a history but right when the same recipe is run "
                 "alone in a fresh process is history dependence; non-trivial = a call preceded by at least one field update or call; distinct calls")
-    nob = ctx.tlapm("ApiProofs", timeout=300)
-    ctx.cover["tlapm"] = ("ApiProofs.tla: %d obligations proved - for histories of ANY length over any number of recipes: results are a function of the "
+    nob = ctx.tlapm("ApiProofs")
+    ctx.cover["tlapm"] = "proofs not re-checked in this run (prover did not finish)" if not nob else ("ApiProofs.tla: %d obligations proved - for histories of ANY length over any number of recipes: results are a function of the "
                           "fields at call time, only the caller changes public fields, a failed call leaves nothing behind" % nob)
     ctx.model_check("Api", "MC_Api_hist.cfg", "all histories of <= 4 calls and <= 3 field updates over 2 objects: CallsLeaveFieldsUnchanged, "
                     "ResultIsFunctionOfFields, SharedDerivedNeverWritten", workers=vlib.NCPU)
